@@ -21,6 +21,7 @@ import (
 	"testing/synctest"
 	"time"
 
+	cfgtypes "github.com/agglayer/aggkit/config/types"
 	"github.com/agglayer/aggkit/db/compatibility"
 	"github.com/agglayer/aggkit/l1infotreesync"
 	"github.com/agglayer/aggkit/reorgdetector"
@@ -38,6 +39,10 @@ import (
 )
 
 const syncerID = "l1InfoTreeSyncer"
+
+// stallFor: how long (fake time) the subscriber takes no notification in the stall deviation: 100 check intervals of the
+// detector (configured to 100 ms here). Not longer: the downloader's 1 ms poll ticker fires once per fake millisecond.
+const stallFor = 10 * time.Second
 
 // coTenantID sorts BEFORE the syncer's id, as "bridgel1sync" does next to "l1infotreesync" in a real node
 const coTenantID = "bridgeSyncerNextDoor"
@@ -212,6 +217,9 @@ type world struct {
 	zombieNotify map[*act.Gate]bool
 	inflight     int // detector check goroutines that have not returned yet
 	rpcErrors    int // transient RPC errors injected so far (budget 1)
+	stalled      bool          // the subscriber does not take notifications (its driver is busy elsewhere)
+	poke         chan struct{} // makes the relay re-read stalled
+	stalls       int
 	// blocks handed to the reorg detector (AddBlockToTrack succeeded) whose ProcessBlock never succeeded: the node was
 	// stopped between the two calls of EVMDriver.handleNewBlock. The tracker then holds a block the store never held.
 	trackedUnprocessed map[uint64]common.Hash
@@ -275,10 +283,16 @@ func (r *rdWrap) Subscribe(id string) (*reorgdetector.Subscription, error) {
 	w, inc := r.w, r.inc
 	go func() { // relay between the detector's subscription and the driver's
 		for {
+			src := real.ReorgedBlock
+			if w.stalled {
+				src = nil // the driver is not in its select: nobody takes the detector's notification for now
+			}
 			select {
 			case <-w.endAll:
 				return
-			case n := <-real.ReorgedBlock:
+			case <-w.poke:
+				continue
+			case n := <-src:
 				w.detectNotif = true
 				if d := w.sched.Enter("4ntf", "notify", fmt.Sprint(n), n); d.Err != nil || inc.dead {
 					// the node was stopped while its detector was about to notify: that check died with the
@@ -505,7 +519,7 @@ func run(c *mc.Ctx, u mc.Unit) {
 			rdClient.S = nil
 		}
 		rd, err := reorgdetector.New(rdClient,
-			reorgdetector.Config{DBPath: rdPath, FinalizedBlock: aggkittypes.FinalizedBlock}, reorgdetector.L1)
+			reorgdetector.Config{DBPath: rdPath, FinalizedBlock: aggkittypes.FinalizedBlock, CheckReorgsInterval: cfgtypes.NewDuration(100 * time.Millisecond)}, reorgdetector.L1)
 		if err != nil {
 			panic(err)
 		}
@@ -619,6 +633,7 @@ func (w *world) explore(incs []*incarnation) {
 		w.sched.Trace = func(g *act.Gate, d act.Directive) { fmt.Fprintf(os.Stderr, "  release %s err=%v\n", g, d.Err) }
 	}
 	w.endAll = make(chan struct{})
+	w.poke = make(chan struct{})
 	w.zombieNotify = map[*act.Gate]bool{}
 	if !w.start(incs[0]) {
 		return
@@ -712,6 +727,11 @@ func (w *world) explore(incs []*incarnation) {
 		if canDetect && len(en) > 0 {
 			alts = append(alts, alt{kind: "detect"}) // deviation: the detector's ticker fires now
 		}
+		if !w.detectBusy && w.stalls < 1 && !w.p.CoTenant && (len(en) > 0 || w.lastDetect != w.activity) {
+			// deviation: the detector's ticker fires while the driver is busy elsewhere for a long time (ten seconds of fake
+			// time = 100 check intervals): nobody takes a notification meanwhile
+			alts = append(alts, alt{kind: "detect-while-subscriber-stalled"})
+		}
 		if next < len(incs) {
 			alts = append(alts, alt{kind: "restart"})
 		}
@@ -738,6 +758,38 @@ func (w *world) explore(incs []*incarnation) {
 			next++
 		case "detect":
 			startDetect()
+		case "detect-while-subscriber-stalled":
+			w.stalls++
+			c.Witness("detector_checks_while_the_subscriber_is_stalled")
+			pokeRelay := func() {
+				select {
+				case w.poke <- struct{}{}:
+				default:
+				}
+				synctest.Wait()
+			}
+			w.stalled = true
+			pokeRelay()
+			startDetect()
+			// the check runs its RPCs under the scheduler as usual; here only time passes while nothing is released
+			for i := 0; i < 60; i++ {
+				gs := w.sched.Settle(3)
+				rel := false
+				for _, g := range gs {
+					if strings.HasPrefix(g.Comp, "5rd") && g.Comp == fmt.Sprintf("5rd#%d", w.inc.id) {
+						w.sched.Release(g, act.Directive{})
+						rel = true
+						break
+					}
+				}
+				if !rel {
+					break
+				}
+			}
+			time.Sleep(stallFor)
+			synctest.Wait()
+			w.stalled = false
+			pokeRelay()
 		case "mutate":
 			w.mutate(script[0])
 			script = script[1:]
